@@ -3,6 +3,8 @@ package checks
 import (
 	"fmt"
 	"net/http"
+	"os"
+	"os/exec"
 	"path/filepath"
 	"reflect"
 	"strings"
@@ -182,15 +184,49 @@ func (h *histEnv) load(c *core.Ctx) bool {
 	return true
 }
 
+// histEnvFor builds the environment of configuration cfgNo (3 directory/extension
+// settings x debug x error page none/valid/broken)
+func histEnvFor(cfgNo int) (*histEnv, string) {
+	hc := histConfigs[cfgNo%len(histConfigs)]
+	mode := cfgNo / len(histConfigs)
+	h := &histEnv{dir: hc.dir, ext: hc.ext, debug: mode%2 == 1, errPage: mode/2 >= 1, brokenErrPage: mode/2 == 2}
+	root := strings.Trim(strings.TrimPrefix(hc.dir, "./"), "/")
+	h.absFile, _ = filepath.Abs(filepath.Join(root, "plain"+hc.ext))
+	return h, root
+}
+
 func init() {
 	ops := histOps()
+	// one operation as the first call of a fresh process; the working directory holds the tree
+	core.RegisterAux("c16-baseline", func(args []string) int {
+		var cfgNo, o int
+		fmt.Sscan(args[0], &cfgNo)
+		fmt.Sscan(args[1], &o)
+		h, _ := histEnvFor(cfgNo)
+		textwire.VerifResetConfig()
+		cfg := &config.Config{TemplateDir: h.dir, TemplateExt: h.ext, DebugMode: h.debug}
+		if h.errPage {
+			cfg.ErrorPagePath = "errors/500"
+		}
+		if h.brokenErrPage {
+			cfg.ErrorPagePath = "errors/broken"
+		}
+		tpl, err := textwire.NewTemplate(cfg)
+		if err != nil {
+			fmt.Fprintln(os.Stderr, err)
+			return 3
+		}
+		h.tpl = tpl
+		fmt.Print(ops[o].run(h))
+		return 0
+	})
 	core.Register(&core.Check{
 		ID:    "C16",
 		Level: "exploration",
 		Rule: "histories are all sequences up to length 2 (quick) / 3 (thorough), sampled ones a step longer and random ones of length 30, over 23 concrete operations on a fixed template tree: String of a layout+component+loop page with struct data, of a page reading user.name with a Go struct, with a map holding name and Name, with a lower-case-only map, of two pages that fail at run time after producing output, of a missing name, of a layout name, of a page calling reverse/append/slice/prepend on data arrays; Response ok/failing/missing (the failing ones render the error page through the string API); EvaluateString ok/failing; EvaluateFile ok/missing - on 3 directory/extension settings x debug on/off x custom error page none/valid/failing; also renders without data that assign at top level followed by renders that read the name, and loops that fail in a later pass followed by other loops. " +
 			"Each step's observation (output, or message+line+path; body and returned error for Response) is compared with the same operation issued first on a fresh load; after every step the verif hooks VerifFingerprint (loaded ASTs) and VerifState (configuration) must equal their values after load. distinct_nontrivial = distinct (configuration, history) pairs",
 		Assumptions: []string{
-			"the baseline of an operation is its result as first call after VerifResetConfig + NewTemplate in the same process",
+			"the baseline of an operation is its result as the first call of a fresh process that loaded the same tree with the same configuration (one child process per operation and configuration)",
 		},
 		Setup: func(c *core.Ctx) {
 			if err := registerTracers(); err != nil {
@@ -206,11 +242,9 @@ func init() {
 			nCfg := len(histConfigs) * 6 // x debug on/off x error page none/valid/broken
 			runHistory := func(c *core.Ctx, cfgNo int, seq []int) {
 				hc := histConfigs[cfgNo%len(histConfigs)]
-				mode := cfgNo / len(histConfigs)
-				h := &histEnv{dir: hc.dir, ext: hc.ext, debug: mode%2 == 1, errPage: mode/2 >= 1, brokenErrPage: mode/2 == 2}
+				h, root := histEnvFor(cfgNo)
 				// the tree is written once per worker and configuration
 				key := fmt.Sprintf("tree-written-%d", cfgNo%len(histConfigs))
-				root := strings.Trim(strings.TrimPrefix(hc.dir, "./"), "/")
 				if c.State[key] == nil {
 					files := histFiles(hc.ext)
 					if err := writeFiles(root, files); err != nil {
@@ -219,7 +253,6 @@ func init() {
 					}
 					c.State[key] = true
 				}
-				h.absFile, _ = filepath.Abs(filepath.Join(root, "plain"+hc.ext))
 				desc := map[string]any{"dir": hc.dir, "ext": hc.ext, "debug": h.debug, "custom_error_page": h.errPage, "custom_error_page_fails": h.brokenErrPage}
 				var names []string
 				for _, o := range seq {
@@ -228,6 +261,8 @@ func init() {
 				desc["history"] = names
 				c.Input(desc)
 				// baselines: every operation of the history, alone, first after a fresh load
+				// the baseline of an operation is what it returns as the first call of a fresh
+				// process (same working directory, same files, same configuration)
 				bkey := fmt.Sprintf("baselines-%d", cfgNo)
 				base, _ := c.State[bkey].(map[int]string)
 				if base == nil {
@@ -238,15 +273,16 @@ func init() {
 					if _, ok := base[o]; ok {
 						continue
 					}
-					if !h.load(c) {
+					exe, _ := os.Executable()
+					cmd := exec.Command(exe, "aux", "c16-baseline", fmt.Sprint(cfgNo), fmt.Sprint(o))
+					cmd.Dir = c.WorkDir
+					out, err := cmd.Output()
+					if err != nil {
+						c.Inconclusive(fmt.Sprintf("baseline process for %s failed: %v", ops[o].name, err))
 						return
 					}
-					var obs string
-					c.Eval(1)
-					if c.Guard(func() { obs = ops[o].run(h) }) {
-						return
-					}
-					base[o] = obs
+					base[o] = string(out)
+					c.Count("baselines_from_fresh_processes", 1)
 				}
 				if !h.load(c) {
 					return
